@@ -360,6 +360,7 @@ func c07Check(cs *vrt.Case, r *vrt.Rng, t c07Tuple) {
 	}
 	mod := new(big.Int).Lsh(big.NewInt(1), uint(t.wr))
 	judged := 0
+	goldSeen := map[string]bool{}
 	for k, f := range vecs {
 		var v []*big.Int
 		off := 0
@@ -387,13 +388,16 @@ func c07Check(cs *vrt.Case, r *vrt.Rng, t c07Tuple) {
 					// with the same signature is a new witness (all vectors are looked at)
 					key = vrt.WitnessKey(key, fmt.Sprintf("%s %s w=%v wr=%d|%s|%s", t.spec.name, t.target, t.w, t.wr, strings.Join(ops, ","), outs[k].Text(10)))
 				}
-				cs.Violate(key, fmt.Sprintf("Goldschmidt divider inexact: %s operands %v give %s, exact %s", t, ops, outs[k].Text(10), want.Text(10)),
-					map[string]any{"tuple": t.String(), "operands": ops, "got": outs[k].Text(10), "want": want.Text(10)})
-				if exh {
+				// with sampled operands the known signature is reported once per
+				// tuple and the scan goes on: it must not hide a failure of
+				// another kind on a later vector
+				if !exh && goldSeen[key] {
 					continue
 				}
-				cs.Evals += int64(judged)
-				return
+				goldSeen[key] = true
+				cs.Violate(key, fmt.Sprintf("Goldschmidt divider inexact: %s operands %v give %s, exact %s", t, ops, outs[k].Text(10), want.Text(10)),
+					map[string]any{"tuple": t.String(), "operands": ops, "got": outs[k].Text(10), "want": want.Text(10)})
+				continue
 			}
 			key := "C07|" + t.class() + "|wrong-value"
 			if t.spec.name == "Subtractor" && t.wr > max(t.w[0], t.w[1])+1 {
